@@ -434,7 +434,7 @@ def modelledMarkEmpty : List String :=
 /-- The callers of `paint_lines`: the marker style is `None` or one of the two marker styles of the Config, the fill
 request a constant or the caller's own parameter. -/
 def modelledCalls : List (String × String × String) :=
-  [("paint_zero_line", "None", "BgShouldFill::With(BgFillMethod::Spaces)"),
+  [("paint_zero_line", "None", "BgShouldFill::With(fill_method)"),
    ("syntax_highlight_and_paint_line", "None", "background_color_extends_to_terminal_width"),
    ("paint_minus_and_plus_lines", "Some(config.minus_empty_line_marker_style)", "BgShouldFill::default()"),
    ("paint_minus_and_plus_lines", "Some(config.plus_empty_line_marker_style)", "BgShouldFill::default()")]
